@@ -271,8 +271,19 @@ func (v *VMValue) UnmarshalJSON(input []byte) error {
 		}
 		err := json.Unmarshal(input, &v1)
 		if err == nil {
-			od := &NativeObjectData{Name: v1.Value.Name}
-			// 只能创建一个空壳，也许反序列化时跳过会更好
+			// 只能创建一个空壳: 宿主对象无法从 JSON 恢复，所有访问都返回错误而不是调用空函数指针
+			unavailable := func(ctx *Context) {
+				if ctx != nil && ctx.Error == nil {
+					ctx.Error = errors.New("原生对象 " + v1.Value.Name + " 无法从序列化数据恢复")
+				}
+			}
+			od := &NativeObjectData{
+				Name:    v1.Value.Name,
+				AttrSet: func(ctx *Context, name string, v *VMValue) { unavailable(ctx) },
+				AttrGet: func(ctx *Context, name string) *VMValue { unavailable(ctx); return nil },
+				ItemSet: func(ctx *Context, index *VMValue, v *VMValue) { unavailable(ctx) },
+				ItemGet: func(ctx *Context, index *VMValue) *VMValue { unavailable(ctx); return nil },
+			}
 			v.Value = NewNativeObjectVal(od).Value
 			return nil
 		}
